@@ -210,7 +210,7 @@ def run(ck, F, tier):
         elif base in ("num_rows", "num_cols"):
             pass
         elif ev.callee.startswith("<"):
-            if ev.callee not in ("<break>", "<apply>"):
+            if ev.callee not in ("<break>", "<apply>", "<try>"):
                 found["other"].append(ev)
         else:
             found["other"].append(ev)
